@@ -33,7 +33,12 @@ func newSizeTracker(info *types.Info, fd *ast.FuncDecl, env *symEnv, extra func(
 	}
 	env.base = append(env.base, t.n.scale(-1))
 	env.havocLoops = true
-	sizeOf := func(st *symState, x ast.Expr) (*Lin, bool) {
+	var sizeOf func(st *symState, x ast.Expr) (*Lin, bool)
+	sizeOf = func(st *symState, x ast.Expr) (*Lin, bool) {
+		// a snapshot has the size of what it was taken from
+		if rx, mname, call, ok := methodCall(ast.Unparen(x)); ok && (mname == "AsArray" || mname == "GetIterator") && len(call.Args) == 0 {
+			return sizeOf(st, rx)
+		}
 		o := identObj(info, x)
 		if o == nil {
 			return nil, false
@@ -107,10 +112,21 @@ func newSizeTracker(info *types.Info, fd *ast.FuncDecl, env *symEnv, extra func(
 		}
 		return Val{}, false
 	}
+	env.onInlineBind = func(caller, callee *symState, param types.Object, arg ast.Expr) {
+		if l, ok := sizeOf(caller, arg); ok {
+			callee.vars[sizeKey(param)] = Val{Lin: l}
+		}
+	}
 	env.onAssign = func(st *symState, lhs ast.Expr, rhs ast.Expr) {
 		o := identObj(info, lhs)
 		if o == nil {
 			return
+		}
+		if rx, mname, call, ok := methodCall(ast.Unparen(rhs)); ok && mname == "AsArray" && len(call.Args) == 0 {
+			if l, ok := sizeOf(st, rx); ok {
+				st.vars[sizeKey(o)] = Val{Lin: l}
+				return
+			}
 		}
 		_, mname, call, ok := methodCall(ast.Unparen(rhs))
 		if !ok {
